@@ -350,6 +350,10 @@ impl FormatString {
 }
 
 fn get_starting_point(file_info: &WalkEntry) -> &Path {
+    // as given on the command line (`d/` stays `d/`), when the walk recorded it
+    if let Some(starting_point) = file_info.starting_point() {
+        return starting_point;
+    }
     file_info
         .path()
         .ancestors()
